@@ -64,18 +64,102 @@ func nsAlphabet() []fsx.Op {
 	return al
 }
 
+const maxFile = (8 + 512*512) * 4096
+
+var offBoundaries = []uint64{0, 1, 4095, 4096, 4097, 8*4096 - 1, 8 * 4096, (8+512)*4096 - 1, (8 + 512) * 4096, (8+1024)*4096 - 1, (8+1024)*4096 + 1, maxFile - 4096, maxFile - 1}
+
+func offAlphabet() []fsx.Op {
+	var al []fsx.Op
+	pat := byte(0x10)
+	for _, off := range offBoundaries {
+		for _, l := range []uint64{1, 4096, 4097, 3*4096 + 1} {
+			pat++
+			if pat&0x80 != 0 {
+				pat = 0x11
+			}
+			al = append(al, fsx.Op{K: "WRITE", H: "root/f", Off: off, Cnt: l, Pat: pat, Stable: 2})
+		}
+	}
+	for _, sz := range append(append([]uint64{}, offBoundaries...), maxFile, maxFile+1, 1<<63, 1<<64-1) {
+		al = append(al, fsx.Op{K: "SETATTR", H: "root/f", Size: sz})
+	}
+	al = append(al, fsx.Op{K: "RESTART"})
+	return al
+}
+
+func nameOfLen(n int, c byte) string {
+	b := make([]byte, n)
+	for i := range b {
+		b[i] = c
+	}
+	return string(b)
+}
+
+func nameAlphabet() []fsx.Op {
+	var al []fsx.Op
+	al = append(al, fsx.Op{K: "CREATE", H: "root", N: "a"})
+	for _, l := range []int{0, 1, 2, 111, 112, 113, 255, 256} {
+		n := nameOfLen(l, 'n')
+		al = append(al,
+			fsx.Op{K: "CREATE", H: "root", N: n},
+			fsx.Op{K: "MKDIR", H: "root", N: n},
+			fsx.Op{K: "SYMLINK", H: "root", N: n, Target: "t"},
+			fsx.Op{K: "LOOKUP", H: "root", N: n, As: "_"},
+			fsx.Op{K: "REMOVE", H: "root", N: n},
+			fsx.Op{K: "RMDIR", H: "root", N: n},
+			fsx.Op{K: "RENAME", H: "root", N: "a", H2: "root", N2: n},
+			fsx.Op{K: "RENAME", H: "root", N: n, H2: "root", N2: "a"},
+		)
+	}
+	return al
+}
+
+func offProbe() *fsx.Probe {
+	return &fsx.Probe{Full: 1 << 20, Windows: offBoundaries}
+}
+
+func c02AfterOff(w *World, path []fsx.Op, r fsx.Reply, implFail bool, mis *reffs.Mismatch, viol func(sig, detail string)) {
+	w.Probe = offProbe()
+	if mis != nil {
+		viol(mis.Rule, mis.Msg+"\nreply: "+r.Brief())
+		return
+	}
+	// targeted reads around every boundary (READ replies are checked by the model)
+	for _, off := range offBoundaries {
+		for _, o := range []fsx.Op{{K: "READ", H: "root/f", Off: off, Cnt: 4097}, {K: "READ", H: "root/f", Off: off, Cnt: 1}} {
+			if _, _, m := w.Do(o); m != nil {
+				viol("after|"+o.K+"|"+m.Rule, fmt.Sprintf("observation %s after the history: %s", o, m.Msg))
+				return
+			}
+		}
+	}
+	if _, _, m := w.Do(fsx.Op{K: "GETATTR", H: "root/f"}); m != nil {
+		viol("after|GETATTR|"+m.Rule, m.Msg)
+		return
+	}
+	if d := w.CompareDump(true); d != "" {
+		viol("after|dump", "full dump differs from the reference: "+d)
+	}
+}
+
 func init() {
+	RegisterSeq("c02.off", &SeqSpec{Prop: "C02", DiskSize: 6000, Setup: []fsx.Op{{K: "CREATE", H: "root", N: "f"}}, Alphabet: offAlphabet(), After: c02AfterOff,
+		Key: func(w *World) string { w.Probe = offProbe(); return w.defaultKey() }})
+	RegisterSeq("c02.names", &SeqSpec{Prop: "C02", DiskSize: 3000, Alphabet: nameAlphabet(), After: c02After})
 	RegisterSeq("c02.ns", &SeqSpec{Prop: "C02", DiskSize: 3000, Alphabet: nsAlphabet(), After: c02After})
 	RegisterSeq("c02.ns.nounstable", &SeqSpec{Prop: "C02", DiskSize: 3000, Alphabet: nsAlphabet(), After: c02After, NoUnstable: true})
 	Checks["C02"] = C02
 }
 
 func C02(r *report.Report, tier string) {
-	depth := 4
+	depth, offDepth, nameDepth := 5, 2, 2
 	if tier == "thorough" {
-		depth = 5
+		depth, offDepth, nameDepth = 6, 3, 3
 	}
 	r.Rule = fmt.Sprintf("breadth-first search over all operation sequences of length <=%d of a %d-symbol namespace/data alphabet on the real server (state = reference model + installed disk content + allocator cursors + inode cache, deduplicated); after every transition: the reply against the reference file system, an observation sweep (LOOKUP of every name incl. . and .., GETATTR, ACCESS, READ, READLINK, READDIR, READDIRPLUS, dead handles) and a full-tree dump comparison incl. handles; distinct_nontrivial = distinct states reached", depth, len(nsAlphabet()))
 	s1 := RunSeq(r, "c02.ns", depth)
-	r.Extra["searches"] = []*SeqSummary{s1}
+	s2 := RunSeq(r, "c02.ns.nounstable", depth-1)
+	s3 := RunSeq(r, "c02.names", nameDepth)
+	s4 := RunSeq(r, "c02.off", offDepth)
+	r.Extra["searches"] = []*SeqSummary{s1, s2, s3, s4}
 }
